@@ -201,7 +201,11 @@ def groups(tier):
     stubs = [(C.T_SOLVE, C.x_solve), (C.T_NORMALIZED, C.x_normalized), (C.T_PAR, C.x_parallel), (C.T_ORT, C.x_orthogonal), (C.T_VEQ, C.x_vector_eq), (C.T_PEQ, C.x_point_eq),
              (C.T_PLANE_IN, C.x_plane_contains_point)]
     mk = lambda name, h, targets, hits=(): Group(name, h, targets, stubs=stubs, world="COORD", timeout_s=600, prove_ms=30000, expect_hits=list(hits))
-    return [
+    from props import C16
+    users = ["Plane(a, b, c, d)", "general_form / point_normal / negation round-trips", "parametric round-trip"]
+    callee = [Group("solve[%dx3] callee-contract clause assumed by the stub: free values appear" % R, C16.make_solve_harness(R, 3, None, True), [C.T_SOLVE, "Geometry3D.utils.solver:Solution.__call__"],
+                    stubs=[(C.T_NULL, C.x_null)], expect_hits=["null"], world="COORD", timeout_s=600, callee_for=users) for R in (1, 2)]
+    return callee + [
         mk("Plane(a, b, c, d)", h_general_form, [PL + "__init__", PL + "_init_gf"], ["solve", "Vector.normalized"]),
         mk("general_form / point_normal / negation round-trips", h_roundtrips, [PL + "general_form", PL + "point_normal", PL + "__neg__", PL + "_init_pn", PL + "_init_gf"], ["solve"]),
         mk("parametric round-trip", h_parametric, [PL + "parametric", PL + "__init__"], ["solve", "Vector.orthogonal"]),
